@@ -35,6 +35,8 @@ FINDINGS = {
                                "(GetServiceClient returns nil), an island covered twice silently goes to the later entry",
     "C20-unrouted-island-panics": "an SDK call for a name whose island has no route dereferences the nil client returned by GetServiceClient "
                                   "and panics (nil pointer) instead of returning an error",
+    "C20-path-cache-stale": "GetFullHashPath memoises the first path on the name object and returns it for ANY later root / island / depth / "
+                            "folders-per-level: asked for island 1 and then island 2 it still answers /r/1/…",
     "C20-island-cache-stale": "GetIslandID / GetFolderNumber memoise the first island on the name object and return it for ANY later island "
                               "count: users/profiles/alice answers 956 for N=1000 and still 956 when asked for N=5",
     "C20-island-off-by-one": "island number is 0-based, out of 1..N, or differs between SDK and server",
@@ -69,6 +71,10 @@ def oracle(rep):
                 if got != fresh:
                     return ("C20-island-cache-stale", "%s: second call on the same name object for N=%s answers %s, a fresh object answers %s (`%s`)"
                             % (side, f[5], got, fresh, op))
+        elif f[0] == "path2":
+            got, fresh = line.split(" p2=")[1].split("!")
+            if got != fresh:
+                return ("C20-path-cache-stale", "second GetFullHashPath on the same name object answers %s, a fresh object answers %s (`%s`)" % (got, fresh, op))
         elif f[0] == "chain":
             if not line.endswith("fresh=true"):
                 return (None, "a name built step by step answers differently from a freshly built one (`%s` -> %s)" % (op, line))
